@@ -65,3 +65,24 @@ def run(ctx, rule="CONTROL"):
     fn = tu.funcs["control_unbounded_store"]
     verdicts = lib_newick.typestate_stores(CFG(fn), "buffer", "buffer_size", "s")
     ctx.ob(rule, "bounded|second-store", verdicts == [True, False], FIXTURE, "store verdicts %s (first bounded, second not)" % verdicts)
+    # reversed guard: the count on the left must still be recognised as the bound, not as the subject
+    cls, off, lo = hi("control_guard_reversed")
+    ctx.ob(rule, "guards|count-on-the-left", cls == ("nodes", 0) and off == 0 and lo == 0, FIXTURE, "`n <= u || 0 > u` normalised to [0, num_rows)")
+    fn = tu.funcs["control_assign_in_condition"]
+    cfg = CFG(fn)
+    sites = [s_ for s_ in E.sites(fn) if s_[3] == "assigned"]
+    oks = [E.checked_after(fn, cfg, c, v)[0] for c, _, v, _ in sites]
+    ctx.ob(rule, "errprop|assign-in-condition", len(oks) == 2 and all(oks), FIXTURE, "`if ((ret = f()) != 0)` counts as tested: %s" % oks)
+    # the loop / kind lints, run on the fixture through a scratch context
+    from . import report as _report
+    from rules import lib_mem, lib_kind
+    sc = _report.Ctx("control", "quick", 0)
+    lib_mem.map_two_pass(sc, P, lambda k, f: True, tus=[tu.key])
+    got = {o["key"]: o["ok"] for o in sc.obligations}
+    ctx.ob(rule, "map-two-pass", got.get("control_map_single_pass|id_map") is False and got.get("control_map_two_pass|id_map") is True, FIXTURE,
+           "single-pass map reported, two-pass map accepted: %s" % got)
+    sc = _report.Ctx("control", "quick", 0)
+    lib_kind.minmax_kind(sc, P, lambda k, f: True, tus=[tu.key])
+    got = {o["key"]: o["ok"] for o in sc.obligations}
+    ctx.ob(rule, "minmax-kind", got.get("control_intersection|out->left@0") is False and got.get("control_intersection|out->right@1") is True, FIXTURE,
+           "left end as TSK_MIN reported, right end as TSK_MIN accepted: %s" % got)
